@@ -83,7 +83,7 @@ def check_sites(rep, crate, cfgname, vetted, counts):
     for b in crate.body_list:
         if sites.skip_body(b):
             continue
-        if sites.is_private_helper(crate, b):
+        if sites.is_private_helper(crate, b) or b.path in sites.context_helpers(crate):
             # analysed in each calling context instead (see sites.collect)
             continue
         n_bodies += 1
@@ -209,9 +209,14 @@ LOOP_VETTED = {
     'arrival::curve::Curve::extrapolate': 'extrapolate_next is >= the largest known distance plus the first entry; with a positive last delta-min the largest known distance grows strictly (well-formed curve)',
     'arrival::curve::Curve::extrapolate_steps': 'each iteration pushes one element: jobs_in_largest_known_distance = len grows by one towards n',
     'wcet::curve::Curve::extrapolate': 'each iteration pushes one element: len grows by one towards n - 1',
+    # (the two `advance` helpers are private and evaluated in place: their loops are judged in `next`, their only caller --
+    #  and stay judged there when the helper is folded into `next`; the helper paths cover a tree where they are public)
     '<arrival::curve::ExtrapolatingCurve as arrival::ArrivalBound>::steps_iter::StepsIter::<\'a>::advance':
         'njobs grows by one per iteration and min_distance(njobs) is unbounded for a curve with a positive last delta-min',
+    '<<arrival::curve::ExtrapolatingCurve as arrival::ArrivalBound>::steps_iter::StepsIter<\'a> as std::iter::Iterator>::next':
+        'njobs grows by one per iteration and min_distance(njobs) is unbounded for a curve with a positive last delta-min',
     'arrival::dmin::DeltaMinIterator::<\'a, AB>::advance': 'leaves the loop when the steps end; otherwise step_count = number_arrivals(step) is non-decreasing along the steps and unbounded',
+    '<arrival::dmin::DeltaMinIterator<\'a, AB> as std::iter::Iterator>::next': 'leaves the loop when the steps end; otherwise step_count = number_arrivals(step) is non-decreasing along the steps and unbounded',
 }
 
 
@@ -219,9 +224,10 @@ def check_term(rep, crate, cfgname, known_loop_findings=()):
     n_loops = 0
     n_consumers = 0
     for b in crate.body_list:
-        if sites.skip_body(b):
+        if sites.skip_body(b) or b.path in sites.context_helpers(crate):
+            # a private loop helper evaluated in place in every caller: its loops are judged there
             continue
-        ev = Evaluator(crate)
+        ev = Evaluator(crate, inline_private_loops='unit')
         try:
             ev.eval_entry(b)
         except RecursionError:
